@@ -48,7 +48,8 @@ SPEC = os.path.join(VERIF, 'specs', 'Auth')
 def cfg_text(**kw):
     d = dict(Users='{A, B}', Bad='Bad', NULL='NULL', MaxMsg=3,
              Methods='{"none", "password", "pks"}', SigKinds='{"ok", "bad"}',
-             NoAuth='{}', PkMode='"callback"', AllowSync='TRUE',
+             NoAuth='{}', PkMode='"callback"', NoKeys='{}',
+             ReloadResets='TRUE', AllowSync='TRUE',
              AllowAsync='TRUE', Probes='TRUE', Fixed='TRUE')
     d.update(kw.pop('consts', {}))
     lines = ['CONSTANTS'] + [f'  {k} = {v}' for k, v in d.items()]
@@ -163,6 +164,21 @@ def main(ctx):
         ctx.require_tlc_ok(f'Auth exhaustive {name} {consts}', res)
         tlc.cleanup(f'c05_mc_{name}')
         os.remove(os.path.join(SPEC, cfg))
+    # keys installed by begin_auth(): a user without keys after one with keys
+    begin = dict(MaxMsg=3 if quick else 4, PkMode='"begin"', NoKeys='{B}',
+                 Methods='{"none", "pks"}', Probes='FALSE')
+    for name, consts, expect in (
+            ('begin', begin, None),
+            ('begin_noreset', dict(begin, MaxMsg=3, ReloadResets='FALSE'),
+             'AuthSound')):
+        cfg = write_cfg(f'_mc_{name}.cfg', consts=consts,
+                        invariants=INVS if expect is None else ['AuthSound'],
+                        properties=PROPS if expect is None else [])
+        res = tlc.run(SPEC, 'Auth', cfg, f'c05_mc_{name}', timeout=3000)
+        ctx.require_tlc_ok(f'Auth {name} {consts}', res,
+                           expect_violation=expect)
+        tlc.cleanup(f'c05_mc_{name}')
+        os.remove(os.path.join(SPEC, cfg))
     # sensitivity: the pre-repair rules must violate AuthSound
     cfg = write_cfg('_mc_unfixed.cfg', consts=dict(Fixed='FALSE', MaxMsg=2,
                     Methods='{"none", "password"}', Probes='FALSE'),
@@ -197,6 +213,12 @@ def main(ctx):
                         Probes='FALSE'), {'pkmode': 'config'}, n, 40),
         ('kbd', dict(MaxMsg=4, Methods='{"kbdint", "none"}', Probes='FALSE'),
          {}, n, 40),
+        ('begin', dict(MaxMsg=4, Methods='{"none", "pks"}', PkMode='"begin"',
+                       NoKeys='{B}', Probes='FALSE'),
+         {'pkmode': 'begin', 'nokeys': ['B']}, n, 40),
+        ('nokeys', dict(MaxMsg=3, Methods='{"none", "pks", "pkq"}',
+                        NoKeys='{B}', Probes='FALSE'),
+         {'nokeys': ['B']}, n // 2, 40),
     ]
     total = 0
     for name, consts, wkw, num, depth in sims:
